@@ -108,7 +108,7 @@ def run(ctx):
                 r.eq('%s:would-block' % tag, (x.value_str(), x.done), ('Ok($m0)', 'return'), site, why='would-block leaves the buffer untouched and reports the bytes read')
             elif pat == 'Err(_)' and kind and kind[0][1] == 'not std::io::ErrorKind::WouldBlock' and x.conds[-1] == kind[0]:
                 r.eq('%s:io-error' % tag, (x.value_str(), x.done),
-                     ('std::result::Result::map_err(Err(%s.Err.0), |$c0| errors::Error::IoErrorReadingSocket{source: $c0})' % call, 'return'), site)
+                     ('Err(errors::Error::IoErrorReadingSocket{source: %s.Err.0})' % call, 'return'), site)
             else:
                 r.bad('%s:unknown-outcome:%s' % (tag, pat), site, built=x.row())
         r.check('outcome-rows', n == 8, site, built=n, expected=8)
